@@ -338,7 +338,7 @@ pub fn run(ctx: &Ctx) -> Result<Evidence, String> {
     if acc.counters.get("HARNESS_unparsable").copied().unwrap_or(0) > 0 {
         return Err("a C14 template does not parse in oracle (b)".into());
     }
-    let mut ev = Evidence::new("cases = (template, second argument): for each of the 156 arrays of length <= 3 over the sub-universe {1,\"a\",null,[1],{\"k\":1}} (plus random nested arrays and non-arrays) as $.B, templates sweep the first argument over all 156 arrays (as @, @.x) and over a 14-element value universe (for in/nin), for all five functions, both polarities, swapped positions, literals, missing nodes and non-array arguments, inside && and ||. So all 156^2 ordered array pairs x 5 functions are evaluated. Non-trivial = distinct (template, B) whose expected result keeps some but not all candidates.");
+    let mut ev = Evidence::new("cases = (template, second argument): for each of the 156 arrays of length <= 3 over the sub-universe {1,\"a\",null,[1],{\"k\":1}} (plus random nested arrays and non-arrays) as $.B, templates sweep the first argument over all 156 arrays (as @, @.x) and over a 14-element value universe (for in/nin), for all five functions, both polarities, swapped positions, literals, missing nodes and non-array arguments, inside && and ||. So all 156^2 ordered array pairs x 5 functions are evaluated. Further families: arrays over {0,1,63,64,65}; arrays over {i64::MAX, 2^63, 2^64-2, 2^64-1} (neighbours sharing one f64); arrays of 4..100 elements whose only common element is a -0.0 / 0.0 pair at the top level or nested; in-place mutation histories. Non-trivial = distinct (template, B) whose expected result keeps some but not all candidates.");
     ev.set("exhaustive", json!(true));
     ev.set("array_pairs", json!(arrs.len() * arrs.len()));
     ev.set("second_arguments", json!(docs.len()));
